@@ -8,10 +8,13 @@ checker is run on every real compiler output against the reference interpretatio
 universal claim over sheets needs the compiler model (M4) and is discharged per sheet by (1);
 for ALL sheets of the fragment `CoreSheet.inFragment` it is PROVED with the Lean compiler model in
 place of the real compiler: `compile_refines_reference` / `C02_fragment` (lock-step simulation of
-the compiler machine and the reference's pass 1 + traces depend only on the index-resolved
-abstraction of a flow); the fragment: action rows and `wait_for_response` / `split_by_value` /
-`split_by_group` rows with conditional and unconditional edges; `C02_fragment_full` names what is
-left.
+the compiler machine and the reference's pass 1, then a bisimulation up to node splitting between
+the index-resolved abstractions of the two flows).  The fragment: every row type of a core sheet
+except `no_op` and `insert_as_block` — action rows (left unconditionally and conditionally: the
+compiler's router node behind the action node), `wait_for_response` / `split_by_value` /
+`split_by_group` / `split_random` rows, `start_new_flow` / `call_webhook` / `transfer_airtime` rows,
+`go_to`, `hard_exit`, `loose_exit`; explicit category names; no given node identifiers / node
+names (no merging), no blocks.  `C02_fragment_full` names what is left.
 -/
 import Rpft.Lemmas.Bisim
 import Rpft.FlowSys
@@ -154,18 +157,28 @@ environment answers and every length the contact observes the same actions in th
 faces the same decisions (operand, ordered tests with their arguments, wait / timeout, result name)
 in the compiled flow as in the meaning of the rows.  Both readings are taken from ONE list of parsed
 rows (`CoreSheet.CRow`; `toEvent` / `toRRow` are cross-checked against the inputs the harness builds
-on every explored sheet).  The fragment: action rows, deciding rows (`wait_for_response` with or
-without timeout, `split_by_value`, `split_by_group`) and the rows that produce no node (`go_to`:
-its edges enter the named rows, cycles included; `hard_exit` / `loose_exit`: the paths end), any
-number of conditional or unconditional edges per row — chains, trees, joins, last-edge-wins
-defaults, tests appended in row order, "No Response" branches — under the single-meaning conditions
-`edgeOk` / `distinctTests`.
+on every explored sheet).  The fragment (`CoreSheet.inFragment`, decidable):
+* rows: action rows; `wait_for_response` (with or without timeout), `split_by_value`,
+  `split_by_group`, `split_random`; `start_new_flow`, `call_webhook`, `transfer_airtime` (performing
+  their own action); `go_to` (its edges enter the named rows, cycles included); `hard_exit` /
+  `loose_exit` (the paths end); no given node identifier or node name, the action as the
+  documentation describes it (`rowOk`);
+* edges: any number of conditional or unconditional edges per row with explicit `from` row ids,
+  blank `from` or `start` — chains, trees, joins, last-edge-wins defaults, tests appended in row
+  order, "No Response" branches, buckets by name, fixed outcomes by word; an action row left
+  conditionally gets a router node behind its node (two compiled nodes for one reference node);
+* single-meaning conditions, each forced (negative witnesses below): `edgeOk` (no variable on an edge
+  leaving a wait row; the reserved "no response" only on edges leaving a wait row; no generated
+  bucket name used explicitly), `distinctTests`, `sameVars` (one variable per action row),
+  `freshNames` (an explicit category name is new when it is used).
 Proof: lock-step simulation of the compiler machine and pass 1 of the reference (after every prefix
-of the sheet, arena node `j` is the compiled form of row `j` with the out-edges recorded for `j`:
-`CoreSheet.Rel`, `row_sim`), then equality of the index-resolved abstractions of the two flows
-(`Flow.trace_eq_of_abs`: identifiers do not matter; `Flow.Positional`: in a switch node built case
-by case, answer `c` leads where exit `c` leads).  Category names are not observed (C02's level);
-`rnf`: whether result names are. -/
+of the sheet, the arena nodes of row `j` are the compiled form of row `j` with the out-edges recorded
+for `j`: `CoreSheet.Rel`, `row_sim`), then a bisimulation between the index-resolved abstractions of
+the two flows in which a reference node may correspond to TWO compiled nodes (`Flow.SplitOf`,
+`Flow.run_split`; entering a node does not depend on the fuel once it exceeds the number of nodes:
+`Flow.aEnter_stable`); identifiers do not matter (`Flow.trace_abs`), in a switch node built case by
+case answer `c` leads where exit `c` leads (`Flow.Positional`, `Flow.CatsPos`).  Category names are
+not observed (C02's level); `rnf`: whether result names are. -/
 theorem compile_refines_reference (rnf : Bool) (testTypes : List Str)
     (rows : List CoreSheet.CRow) (out : Compile.Out) (r : Flow.Flow)
     (hF : CoreSheet.inFragment rows = true)
@@ -185,10 +198,11 @@ theorem C02_fragment (testTypes : List Str) (rows : List CoreSheet.CRow) (out : 
 
 /-- What is NOT proved universally: the same statement for every sheet the parser accepts, i.e.
 with a weaker `wf` than `inFragment` (the documented single-meaning conditions DESIGN §5 C02 WF,
-NoopStable) — conditional edges leaving action rows (a router node is created behind the action:
-two compiled nodes for one reference node), `split_random`, sub-flow / webhook / airtime rows,
-`no_op`, explicit category names, node merging, blocks.
-Decided per explored sheet by `flows_equiv_of_cert` on the real output. -/
+NoopStable).  Left out of the fragment: `no_op` rows (their router is created lazily and their
+parents are re-connected: F-C02-b lives there), rows naming an existing node (`_nodeId` / node name:
+node merging), blocks (`insert_as_block`, `begin_block` / `end_block`: the block clause of C03), and
+rows that do not stand for themselves in the documentation's table.  Decided per explored sheet by
+`flows_equiv_of_cert` on the real output. -/
 def C02_fragment_full (wf : List CoreSheet.CRow → Prop) : Prop :=
   ∀ (testTypes : List Str) (rows : List CoreSheet.CRow) (out : Compile.Out) (r : Flow.Flow),
     wf rows → Compile.compile RefFlow.noArgsTests testTypes (rows.map CoreSheet.toEvent) = .ok out →
